@@ -745,7 +745,9 @@ class PGMCompiler:
 
         # Convert points if G-Code commands
         args = [self._format_args(x, y, z, f) for (x, y, z, f) in zip(x_gc, y_gc, z_gc, f_gc)]
+        prev_arg = None
         for (arg, s) in itertools.zip_longest(args, s_gc):
+            toggled = True
             if s == 0 and self._shutter_on is True:
                 self.instruction('\n')
                 self.dwell(self.short_pause)
@@ -759,7 +761,11 @@ class PGMCompiler:
                 self.dwell(self.long_pause)
                 self.instruction('\n')
             else:
+                toggled = False
+            # a shutter change made on a duplicated point needs no motion; otherwise the point must still be reached
+            if not toggled or arg != prev_arg:
                 self._instructions.append(f'G1 {arg}\n')
+            prev_arg = arg
         self.dwell(self.long_pause)
         self.instruction('\n')
 
